@@ -22,6 +22,10 @@ func (t *AlwaysAvailableTrack) UnmarshalJSON(b []byte) error {
 		return err
 	}
 
+	return t.validate()
+}
+
+func (t *AlwaysAvailableTrack) validate() error {
 	switch t.Codec {
 	case CodecAV1, CodecVP9, CodecH265, CodecH264, CodecOpus:
 		if t.SampleRate != 0 {
